@@ -146,6 +146,10 @@ def Ht.toList (h : Ht α) : List (UInt32 × α) :=
 def Ht.resizeTo (h : Ht α) (ve : VEq α) (check : Bool) (newSize : Nat) : Ht α :=
   h.toList.foldl (fun t (r : UInt32 × α) => t.insertCore ve check r.2 r.1) (initTable newSize h.resize)
 
+/-- the "enable shrinking" step: `if ((ht->resize == 1) && (r >= LYHT_FIRST_SHRINK_PERCENTAGE)) ht->resize = 2` -/
+def Ht.armed (h1 : Ht α) : Ht α :=
+  if h1.resize = 1 ∧ (h1.used * 100) / h1.size ≥ LYHT_FIRST_SHRINK_PERCENTAGE then { h1 with resize := 2 } else h1
+
 /-- `_lyht_insert_with_resize_cb(ht, val_p, hash, resize_val_equal, match_p, check)`;
 `wantMatch` = `match_p != NULL`. -/
 def Ht.insert (h : Ht α) (ve : VEq α) (rve : Option (VEq α)) (check wantMatch : Bool) (v : α) (hash : UInt32) :
@@ -154,10 +158,10 @@ def Ht.insert (h : Ht α) (ve : VEq α) (rve : Option (VEq α)) (check wantMatch
   | some (i, _) => (.exist (h.recAt i).val, h)
   | none =>
     if ¬ h.firstFree < h.size then (.full, h) else
-    let (h1, _) := h.link v hash
+    let h1 := (h.link v hash).1
     if h1.resize ≠ 0 then
       let r := (h1.used * 100) / h1.size
-      let h2 := if h1.resize = 1 ∧ r ≥ LYHT_FIRST_SHRINK_PERCENTAGE then { h1 with resize := 2 } else h1
+      let h2 := h1.armed
       if h2.resize = 2 ∧ r ≥ LYHT_ENLARGE_PERCENTAGE then
         let e := rve.getD ve
         let h3 := h2.resizeTo e check (h2.size * 2)
